@@ -268,6 +268,20 @@ def live_histories(tier, rng, n_quick=40, n_thorough=400):
     import gens
     from docs import E, to_text, ro_replace, metadata_replace, ro_delete, story_send, p, story_append
     n = n_quick if tier == 'quick' else n_thorough
+    # fixed histories first: what an object may remember across a roReplace (its roCreate element, its story IDs, its
+    # offsets) - an insert, the content re-sent without one story and with a new one, then inserts of the story that left
+    # (not a duplicate any more) and of the one that came (a duplicate now), an item edit, a delete, a move
+    from docs import story_insert as _si, element_action as _ea, ref as _ref, ro_replace as _rr, item_insert as _ii, story_delete as _sd, story_move as _sm
+    for variant in (0, 1):
+        ins = (lambda mid, tgt, sts: _si(mid, tgt, sts)) if variant == 0 else (lambda mid, tgt, sts: _ea(mid, 'INSERT', [_ref('storyID', tgt)], [sts]))
+        yield {'ro': to_text(gens.make_ro(['A', 'B', 'C'], layout='plain')),
+               'msgs': [to_text(ins(20, 'B', [gens.new_story('X')])),
+                        to_text(_rr(21, [gens.new_story('A'), gens.new_story('C'), gens.new_story('D')])),
+                        to_text(ins(22, 'C', [gens.new_story('B'), gens.new_story('D')])),
+                        to_text(_ii(23, 'B', None, [gens.new_item('late')])),
+                        to_text(_sd(24, ['X', 'A'])),
+                        to_text(_sm(25, ['D', 'B'])),
+                        to_text(ins(26, 'B', [gens.new_story('A'), gens.new_story('X')]))]}
     for h in range(n):
         sids = gens.STORY_IDS[:rng.randrange(1, 4)]
         ro = gens.vary_envelope(rng, to_text(gens.make_ro(sids, layout=rng.choice(gens.RO_LAYOUTS), timing=rng.choice(gens.TIMINGS))))
